@@ -29,11 +29,20 @@ Clauses(r) ==
                   \cup (IF \A k \in 1..Len(w) : o[k].pool = (IF w[k].pool THEN "true" ELSE "false") THEN {} ELSE {"pool"})
                   \cup (IF \A k \in 1..Len(w) : o[k].tpool = w[k].tpool THEN {} ELSE {"tally_pool"})
 
-\* RAIRE-format reader: rank k for the k-th listed candidate, header lines skipped, a card's contests merged
+\* RAIRE-format reader: rank k for the k-th listed candidate, header lines skipped, a card's contests merged.
+\* got = the recorded candidates in rank order with their ranks.  A candidate listed once has its listing position
+\* as rank; one listed more than once has one of its listing positions (the statement does not say which).
+RankOK(P, got) ==
+    LET Pos(c) == {j \in 1..Len(P) : P[j] = c}
+        listed == {P[j] : j \in 1..Len(P)}
+    IN  /\ Len(got.ranking) = Len(got.ranks)
+        /\ Len(got.ranking) = Cardinality(listed)
+        /\ {got.ranking[k] : k \in 1..Len(got.ranking)} = listed
+        /\ \A k \in 1..Len(got.ranking) : got.ranks[k] \in Pos(got.ranking[k])
 ReaderClauses(r) ==
     (IF \A k \in 1..Len(r.rows) :
           LET row == r.rows[k]  got == r.cvr_reader[k]
-          IN  got.ranking = row.prefs /\ got.ranks = [j \in 1..Len(row.prefs) |-> j]
+          IN  RankOK(row.prefs, got)
      THEN {} ELSE {"reader:rank"})
     \cup (IF r.n_cards = Cardinality({r.rows[k].bid : k \in 1..Len(r.rows)}) THEN {} ELSE {"reader:merge"})
 
